@@ -31,8 +31,10 @@ UNIV_QUICK = [
   FAB(2, 2, 2, A_START=0, A_STARTFIX=1, A_FIN=0, A_FINFIX=2, B_START=0, B_STARTFIX=1, B_FIN=0, B_FINFIX=3),   # 8+8: all 16 edges free; A: 0 start, 1 final; B: 0 start, both final
   FAB(1, 3, 1, B_START=0, B_STARTFIX=1),                                             # 3+12: B three states, one letter, start {0}
   FAB(1, 3, 2, A_START=0, A_STARTFIX=1, A_FIN=0, A_FINFIX=1, B_EDGES=edges(3, 2, lambda q, a, r: r != 0), B_START=0, B_STARTFIX=1, B_FIN=6, B_FINFIX=1),   # 2+14: A = start+final state with free loops a,b; B three states, 12 edges (none into state 0), start {0} which is final, finals of 1,2 free
+  FAB(1, 3, 1, B_FIN=0, B_FINFIX=7),                                                 # 3+12: B three states, all final, start bits free (several start states: incomparable macro-states of B for one A-state; third red-team round)
 ]
 UNIV_THOROUGH = UNIV_QUICK + [
+  FAB(1, 3, 1),                                                                      # 3+15: everything free
   FAB(3, 1, 1, A_START=0, A_STARTFIX=1),                                             # 12+3
   FAB(2, 2, 2, A_EDGES=edges(2, 2, lambda q, a, r: a == 1), A_START=3, A_FIN=0, A_FINFIX=3, B_START=3, B_FIN=0, B_FINFIX=3),   # 6+10: A uses letter b only, start bits free, all final; B 8 edges, start bits free, all final
   FAB(2, 2, 2, A_START=0, A_STARTFIX=1, A_FIN=0, A_FINFIX=2, B_START=0, B_STARTFIX=3, B_FIN=0, B_FINFIX=2),   # 8+8: B with two start states, final {1}
@@ -52,7 +54,7 @@ CHECKS = {
  'C09': {
   'level': 'model_checking',
   'explanation': 'ExplicitFiniteAut::CheckInclusion executed symbolically for each implemented algorithm selection without simulation (antichains; congruence depth-first; congruence breadth-first), operands prepared as cli/operations.hh does (two automata numbered from 0, AutBase::SanitizeAutsForInclusion, then the library call which sanitises again and, for congruence, builds the disjoint union), on every pair of NFAs of the universe of the configuration (presence bit per edge, start bit and final bit per state); the verdict is compared with an independent subset-construction oracle (all reachable pairs of an A state and a B macro-state). One query per (universe, selection); since every selection equals the same oracle on the same universes they agree; two queries additionally run all three selections on the same pair and compare them directly.',
-  'bounds': {'quick': 'pairs (A,B) of NFAs with |Q_A|+|Q_B| <= 4 states over <= 3 letters: 1+2 and 2+1 states x 2 letters, 2+2 x 1 letter, 1+1 x 3 letters (all edges, start and final bits free, 10..16 bits), two 16-bit sub-universes of 2+2 states x 2 letters, 1+3 states x 1 letter and a 16-bit sub-universe of 1+3 states x 2 letters; 3 selections each',
+  'bounds': {'quick': 'pairs (A,B) of NFAs with |Q_A|+|Q_B| <= 4 states over <= 3 letters: 1+2 and 2+1 states x 2 letters, 2+2 x 1 letter, 1+1 x 3 letters (all edges, start and final bits free, 10..16 bits), two 16-bit sub-universes of 2+2 states x 2 letters, 1+3 states x 1 letter and a 16-bit sub-universe of 1+3 states x 2 letters; 3 selections each; third red-team round: 1+3 states x 1 letter with every state of B final and free start bits (15 bits)',
              'thorough': 'as quick plus 3+1 x 1 letter, three more 16-bit sub-universes of 2+2 x 2 letters (several start states on either side), 2+3 and 3+2 x 1 letter, 1+2 x 3 letters, two 18-bit universes 2+2 x 2 letters (all 16 edges free), a 20-bit universe 1+3 x 2 letters, and the direct library call (no CLI sanitisation, disjoint state numbers) on three universes'},
   'outside': 'more than 3 states per operand or 5 in total, more than 3 letters, the selections that need a simulation relation (ExplicitFiniteAut::ComputeSimulation is not implemented: assert(false)), the equivalence variants (CLI: "Equivalence not implemented"), direct library calls on operands with overlapping state numbers, other heap address orders than the bump allocator\'s (the antichain work list is ordered by macro-state addresses)',
   'assumptions': ['start symbols (the nullary Timbuk rules that make a state a start state) carry no language meaning; every start state is given the same start symbol'],
